@@ -404,6 +404,9 @@ type c16E2EInput struct {
 	StartSec  int64    `json:"start_s"`
 	EndSec    int64    `json:"end_s"`
 	WantLines []string `json:"want_lines"`
+	// Metric: the query is count_over_time({container="n0"}[1m]) instead: the command evaluates it (and then refuses to
+	// render a matrix); the daemon must have been asked for [start - 1m, end]
+	Metric bool `json:"metric,omitempty"`
 }
 
 type c16E2EObs struct {
@@ -442,10 +445,17 @@ func c16E2EExec(in c16E2EInput) (o c16E2EObs) {
 	cmd.SetOut(&out)
 	cmd.SetErr(&bytes.Buffer{})
 	cmd.SilenceUsage, cmd.SilenceErrors = true, true
-	cmd.SetArgs(append(append([]string{}, in.Args...), "--color=false", "--timestamp=false", "--container=false", `{container="n0"}`))
+	query := `{container="n0"}`
+	if in.Metric {
+		query = `count_over_time({container="n0"}[1m])`
+	}
+	cmd.SetArgs(append(append([]string{}, in.Args...), "--color=false", "--timestamp=false", "--container=false", query))
 	if err := cmd.ExecuteContext(context.Background()); err != nil {
 		o.Err = err.Error()
-		return o
+		if !in.Metric || !strings.Contains(o.Err, "unsupported result") {
+			return o
+		}
+		o.Err = "" // evaluated, not rendered: the request to the daemon is what is looked at
 	}
 	if len(fake.Calls) > 0 {
 		o.Since, o.Until = fake.Calls[0].Options.Since, fake.Calls[0].Options.Until
@@ -467,6 +477,10 @@ func c16E2ECheck(r *vkit.Run, in c16E2EInput) {
 		fail("panic: " + obs.Panic)
 	case obs.Err != "":
 		fail("the command rejects well-formed flags: " + obs.Err)
+	case in.Metric:
+		if obs.Since != strconv.FormatInt(in.StartSec-60, 10) || obs.Until != strconv.FormatInt(in.EndSec, 10) {
+			fail(fmt.Sprintf("the daemon is asked for since=%q until=%q, the flags and the 1m range denote [%d, %d]", obs.Since, obs.Until, in.StartSec-60, in.EndSec))
+		}
 	case obs.Since != strconv.FormatInt(in.StartSec, 10) || obs.Until != strconv.FormatInt(in.EndSec, 10):
 		fail(fmt.Sprintf("the daemon is asked for since=%q until=%q, the flags denote [%d, %d]", obs.Since, obs.Until, in.StartSec, in.EndSec))
 	case strings.Join(obs.Lines, "|") != strings.Join(in.WantLines, "|"):
@@ -498,6 +512,22 @@ func c16E2ERun(r *vkit.Run, one func(fn func(), nontrivial bool)) {
 					in := c16E2EInput{Args: []string{"--since=" + si, "--end=" + en, "--step=15s"}, StartSec: startSec, EndSec: endSec, WantLines: inside}
 					one(func() { c16E2ECheck(r, in) }, true)
 				}
+			}
+		}
+	}
+	// explicit steps far smaller than the range (a log query does not step at all), and a metric query whose start and
+	// end are no multiples of its step
+	for _, span := range []int64{3600, 90000, 864000} {
+		startSec := int64(1700000010)
+		endSec := startSec + span
+		_, inside := c16E2ERecords(startSec, endSec)
+		for _, step := range []string{"1", "1s", "500ms", "0.25", "7", "1m", "13m"} {
+			args := []string{"--start=" + strconv.FormatInt(startSec, 10), "--end=" + strconv.FormatInt(endSec, 10), "--step=" + step}
+			in := c16E2EInput{Args: args, StartSec: startSec, EndSec: endSec, WantLines: inside}
+			one(func() { c16E2ECheck(r, in) }, true)
+			if span == 3600 && step != "1" && step != "1s" && step != "500ms" && step != "0.25" {
+				inm := c16E2EInput{Args: args, StartSec: startSec, EndSec: endSec, Metric: true}
+				one(func() { c16E2ECheck(r, inm) }, true)
 			}
 		}
 	}
